@@ -14,5 +14,5 @@ CONSTANTS Weights = {50, 100}
  Slices = {"sigs", "tamper", "payer", "junk", "box", "reconf"}
  Dev = {"Dev_MultisigCountsRepeatedSigner"}
 VIEW View
-PROPERTIES EffectOnlyIfAuthorized CanonicalAccepted RepeatNeverHelps ForeignNeverHelps RemovalNeverHelps EncodingIrrelevant TamperFalsifies PayerBinds ThresholdExact Reconf
+PROPERTIES EffectOnlyIfAuthorized CanonicalAccepted RepeatNeverHelps ForeignNeverHelps RemovalNeverHelps EncodingIrrelevant TamperFalsifies PayerBinds ThresholdExact Reconf ChangeCovered BoxBinds LabelIrrelevant
 CHECK_DEADLOCK FALSE
